@@ -1,7 +1,8 @@
 (* The unified rendering of a chunk list that describes how L becomes R, applied to L by the
    reference applier for the unified format, gives R — for every variant that names an empty
    range by the preceding line (F6 repaired), and on the code as it stands (pinned) for chunk
-   lists without an empty left range. *)
+   lists without an empty left range and (strict reading, which also checks where the new lines
+   land in the new file) without an empty right range. *)
 From Coq Require Import NArith ZArith List Bool Lia.
 Import ListNotations.
 From Mds Require Import Mdiff.ReaderModel Mdiff.FormatSpec Mdiff.FormatProofs Mdiff.ReaderNormalProofs
@@ -10,8 +11,12 @@ From Mds Require Import Gen.MdiffSpan.
 Local Open Scope Z_scope.
 
 Definition nonempty_left (c : chunk line) : Prop := LEnd c - LStart c <> 0.
-Definition appliable (v : variant) (cs : list (chunk line)) : Prop :=
-  uspan_empty_names_next_line v = false \/ Forall nonempty_left cs.
+Definition nonempty_right (c : chunk line) : Prop := REnd c - RStart c <> 0.
+Definition nonempty_sides (strict : bool) (c : chunk line) : Prop :=
+  nonempty_left c /\ (strict = true -> nonempty_right c).
+Definition appliable_gen (strict : bool) (v : variant) (cs : list (chunk line)) : Prop :=
+  uspan_empty_names_next_line v = false \/ Forall (nonempty_sides strict) cs.
+Definition appliable := appliable_gen true.
 
 (* ---- hunk bodies ---- *)
 Definition lefts (ms : list (op * line)) : list line :=
@@ -98,10 +103,10 @@ Lemma uchunks_hunk_stop v cs : hunk_stop (flat_map (uchunk_lines v) cs).
 Proof. destruct cs as [|c cs]; [exact I|]. reflexivity. Qed.
 
 (* ---- all hunks ---- *)
-Lemma apply_uhunks_chunks v cs : forall lpos rpos l r,
-  chunks_from lpos rpos l r cs -> appliable v cs ->
+Lemma apply_uhunks_chunks strict v cs : forall lpos rpos l r,
+  chunks_from lpos rpos l r cs -> appliable_gen strict v cs ->
   forall fuel, (fuel > length (flat_map (uchunk_lines v) cs))%nat ->
-  apply_uhunks fuel (flat_map (uchunk_lines v) cs) (lpos - 1) l = Some r.
+  apply_uhunks strict fuel (flat_map (uchunk_lines v) cs) (lpos - 1) (rpos - 1) l = Some r.
 Proof.
   intros lpos rpos l r H.
   induction H as [lpos rpos g0 | lpos rpos g0 c cs l r HL HR HLe HRe Hcf IH]; intros Hv fuel Hfuel.
@@ -120,9 +125,22 @@ Proof.
       destruct (lc =? 0) eqn:E0.
       - apply Z.eqb_eq in E0. destruct Hv as [Hv|Hv].
         + rewrite Hv. reflexivity.
-        + inversion Hv as [|? ? Hne _]; subst. unfold nonempty_left in Hne. fold lc in Hne. lia.
+        + inversion Hv as [|? ? [Hne _] _]; subst. unfold nonempty_left in Hne. fold lc in Hne. lia.
+      - destruct (uspan_empty_names_next_line v); reflexivity. }
+    set (rc := REnd c - RStart c).
+    set (rs := if rc =? 1 then RStart c else uspan_first_v v (RStart c) (REnd c)).
+    assert (Enfirst : strict = true -> (if rc =? 0 then rs else rs - 1) = RStart c - 1).
+    { intros Hs. unfold rs, uspan_first_v, uspan_first, uspan_count. fold rc.
+      destruct (rc =? 1) eqn:E1; [apply Z.eqb_eq in E1; rewrite E1; reflexivity|].
+      destruct (rc =? 0) eqn:E0.
+      - apply Z.eqb_eq in E0. destruct Hv as [Hv|Hv].
+        + rewrite Hv. reflexivity.
+        + inversion Hv as [|? ? [_ Hne] _]; subst. specialize (Hne eq_refl). unfold nonempty_right in Hne. fold rc in Hne. lia.
       - destruct (uspan_empty_names_next_line v); reflexivity. }
     rewrite Efirst.
+    replace (strict && negb ((if rc =? 0 then rs else rs - 1) =? rpos - 1 + (LStart c - 1 - (lpos - 1)))) with false.
+    2:{ destruct strict; [|reflexivity]. rewrite (Enfirst eq_refl). cbn [andb]. symmetry.
+        apply negb_false_iff. apply Z.eqb_eq. lia. }
     replace (LStart c - 1 <? lpos - 1) with false by (symmetry; apply Z.ltb_ge; lia).
     replace (llen (g0 ++ consumed (edits c) ++ l) <? LStart c - 1 - (lpos - 1)) with false
       by (symmetry; apply Z.ltb_ge; rewrite llen_app; pose proof (llen_nonneg (consumed (edits c) ++ l)); lia).
@@ -133,9 +151,10 @@ Proof.
     rewrite apply_ubody_marks by (first [apply umarks_body | apply uchunks_hunk_stop]).
     rewrite lefts_umarks, rights_umarks. rewrite !Z.add_0_l.
     replace (llen (consumed (edits c)) =? lc) with true by (symmetry; apply Z.eqb_eq; lia).
-    replace (llen (produced (edits c)) =? REnd c - RStart c) with true by (symmetry; apply Z.eqb_eq; lia).
+    replace (llen (produced (edits c)) =? rc) with true by (symmetry; apply Z.eqb_eq; unfold rc; lia).
     cbn [negb orb].
     replace (LStart c - 1 + llen (consumed (edits c))) with (LEnd c - 1) by lia.
+    replace (rpos - 1 + (LStart c - 1 - (lpos - 1)) + llen (produced (edits c))) with (REnd c - 1) by lia.
     rewrite IH.
     + reflexivity.
     + destruct Hv as [Hv|Hv]; [left; exact Hv | right; inversion Hv; assumption].
@@ -161,20 +180,36 @@ Section Header.
     rewrite cut_prefix_app. cbn [orb]. reflexivity.
   Qed.
 
-  Theorem apply_unified_lines v fi L R cs :
-    appliable v cs -> patch_ok L R cs ->
-    apply_unified L (unified_lines time_is_zero format_time v fi cs) = Some R.
+  Theorem apply_unified_lines strict v fi L R cs :
+    appliable_gen strict v cs -> patch_ok L R cs ->
+    apply_unified_gen strict L (unified_lines time_is_zero format_time v fi cs) = Some R.
   Proof.
-    intros Hv H. unfold apply_unified. rewrite skip_uheader_unified.
-    apply (apply_uhunks_chunks v cs 1 1 L R H Hv). lia.
+    intros Hv H. unfold apply_unified_gen. rewrite skip_uheader_unified.
+    apply (apply_uhunks_chunks strict v cs 1 1 L R H Hv). lia.
+  Qed.
+
+  Theorem apply_unified_text_gen strict v fi L R cs :
+    appliable_gen strict v cs -> patch_ok L R cs -> lines_nf cs -> info_ok time fi ->
+    apply_unified_gen strict L (split_lines (unified time_is_zero format_time v fi cs)) = Some R.
+  Proof.
+    intros Hv H Hnf Hfi. unfold unified.
+    rewrite split_join_lines by (apply unified_lines_nf; assumption).
+    apply apply_unified_lines; assumption.
   Qed.
 
   Theorem apply_unified_text v fi L R cs :
     appliable v cs -> patch_ok L R cs -> lines_nf cs -> info_ok time fi ->
     apply_unified L (split_lines (unified time_is_zero format_time v fi cs)) = Some R.
+  Proof. apply apply_unified_text_gen. Qed.
+
+  (* the reading that ignores where the new lines land (what GNU patch does with these numbers):
+     only an empty LEFT range is misplaced by the code as it stands *)
+  Theorem apply_unified_text_lenient v fi L R cs :
+    uspan_empty_names_next_line v = false \/ Forall nonempty_left cs ->
+    patch_ok L R cs -> lines_nf cs -> info_ok time fi ->
+    apply_unified_gen false L (split_lines (unified time_is_zero format_time v fi cs)) = Some R.
   Proof.
-    intros Hv H Hnf Hfi. unfold unified.
-    rewrite split_join_lines by (apply unified_lines_nf; assumption).
-    apply apply_unified_lines; assumption.
+    intros Hv. apply apply_unified_text_gen. destruct Hv as [Hv|Hv]; [left; exact Hv | right].
+    eapply Forall_impl; [|exact Hv]. intros c Hc. split; [exact Hc | discriminate].
   Qed.
 End Header.
